@@ -360,7 +360,7 @@ func execC20(t *testing.T, c C20Case) (v Verdict) {
 				}
 				return append([]byte("R"+tag+":"), req...), nil
 			})
-			svc.Stream("s"+tag, true, true, func(s grpcServerStream) error {
+			svc.Stream("s"+tag, c.Kind != kit.KindServer, c.Kind != kit.KindClient, func(s grpcServerStream) error {
 				log("H>")
 				defer log("H<")
 				defer func() { hdone <- struct{}{} }()
@@ -686,6 +686,11 @@ func execC20(t *testing.T, c C20Case) (v Verdict) {
 			}
 			h.mu.Unlock()
 		}
+	}
+	if c.Outcome == "transport" && c.RPCs >= 1 && results[c.RPCs-1].done && results[c.RPCs-1].err == nil {
+		// the connection was taken down while this RPC's handler was still waiting: whatever error value the transport
+		// failed with, the RPC did not complete
+		v.failf("rpc %d was cut off by a transport failure (%s) while its handler was still running, the caller saw success", c.RPCs-1, c.ErrKind)
 	}
 	if c.Outcome == "transport" {
 		if !afterDone {
